@@ -37,8 +37,33 @@ func (t *vTable) Close() error {
 	return nil
 }
 func (*vTable) Collect(Metrics) {}
+// snapshot instrumentation of the fake table (C19): a table must not be closed while its snapshot is running
+var (
+	snapshotDelayNs           atomic.Int64
+	snapshotsStarted          atomic.Int64
+	tableClosedDuringSnapshot atomic.Int64
+)
+
 func (t *vTable) TakeFileSnapshot(dst string) (bool, error) {
-	return false, nil
+	snapshotsStarted.Add(1)
+	if t.closed.Load() {
+		tableClosedDuringSnapshot.Add(1)
+	}
+	if d := snapshotDelayNs.Load(); d > 0 {
+		time.Sleep(time.Duration(d))
+	}
+	if t.closed.Load() {
+		tableClosedDuringSnapshot.Add(1)
+	}
+	ents, _ := os.ReadDir(t.root)
+	for _, e := range ents {
+		if !e.IsDir() {
+			if b, err := os.ReadFile(filepath.Join(t.root, e.Name())); err == nil {
+				os.WriteFile(filepath.Join(dst, e.Name()), b, 0o644)
+			}
+		}
+	}
+	return len(ents) > 0, nil
 }
 
 func vTableCreator(_ fs.FileSystem, root string, _ common.Position, _ *logger.Logger, _ timestamp.TimeRange, _ any, _ any) (*vTable, error) {
